@@ -6,6 +6,7 @@ import Driver.MetricsRs
 import Driver.Units
 import Driver.Timers
 import Driver.EmfSpec
+import Driver.Aggregation
 /-!
 `driver <engine>`: reads one request per line on stdin, prints one reply per line.
 Every engine is a pure function `String → String` of the request line (stateful models receive the
@@ -20,7 +21,8 @@ def engines : List (String × (String → String)) := [
   ("metricsrs", Driver.MetricsRs.handle),
   ("units", Driver.Units.handle),
   ("timers", Driver.Timers.handle),
-  ("emfspec", Driver.EmfSpec.handle)
+  ("emfspec", Driver.EmfSpec.handle),
+  ("aggregation", Driver.Aggregation.handle)
 ]
 
 partial def loop (h : IO.FS.Stream) (out : IO.FS.Stream) (f : String → String) : IO Unit := do
